@@ -60,19 +60,19 @@ Lemma let_define_nonlocal_global_top stk : forall c l self stk' c',
 Proof.
   induction stk as [|s rest IH]; intros c l self stk' c' H; cbn [let_define_nonlocal] in H; [discriminate|].
   destruct (s_kind s) eqn:K.
-  - inversion H; subst. split; [reflexivity|]. cbn. rewrite K. exact I.
+  - inversion H; subst. split; [reflexivity|]. cbn [s_kind s_defined s_bindings s_nonlocal s_seen with_defined with_bindings with_nonlocal with_seen]. rewrite K. exact I.
   - destruct (let_define_nonlocal rest c l RGlobal false) as [[rest' c'']|e] eqn:E; [|discriminate].
     inversion H; subst. apply IH in E. destruct E as [-> _]. split; [reflexivity|].
-    cbn. rewrite K. intros x Hx. apply lookup_fold_dict_set. left. exact Hx.
+    cbn [s_kind s_defined s_bindings s_nonlocal s_seen with_defined with_bindings with_nonlocal with_seen]. rewrite K. intros x Hx. apply lookup_fold_dict_set. left. exact Hx.
   - unfold fn_define_nonlocal in H.
     destruct (find _ _) in H; [discriminate|]. inversion H; subst. split; [reflexivity|].
-    cbn. rewrite K. intros x Hx. rewrite smem_supdate. apply orb_true_iff. right. apply smem_In. exact Hx.
+    cbn [s_kind s_defined s_bindings s_nonlocal s_seen with_defined with_bindings with_nonlocal with_seen]. rewrite K. intros x Hx. rewrite smem_supdate. apply orb_true_iff. right. apply smem_In. exact Hx.
   - unfold fn_define_nonlocal in H.
     destruct (find _ _) in H; [discriminate|]. inversion H; subst. split; [reflexivity|].
-    cbn. rewrite K. intros x Hx. rewrite smem_supdate. apply orb_true_iff. right. apply smem_In. exact Hx.
+    cbn [s_kind s_defined s_bindings s_nonlocal s_seen with_defined with_bindings with_nonlocal with_seen]. rewrite K. intros x Hx. rewrite smem_supdate. apply orb_true_iff. right. apply smem_In. exact Hx.
   - unfold fn_define_nonlocal in H.
     destruct (find _ _) in H; [discriminate|]. inversion H; subst. split; [reflexivity|].
-    cbn. rewrite K. intros x Hx. rewrite smem_supdate. apply orb_true_iff. right. apply smem_In. exact Hx.
+    cbn [s_kind s_defined s_bindings s_nonlocal s_seen with_defined with_bindings with_nonlocal with_seen]. rewrite K. intros x Hx. rewrite smem_supdate. apply orb_true_iff. right. apply smem_In. exact Hx.
 Qed.
 
 Theorem global_decl_unrenames stk c l stk' c' x :
@@ -99,7 +99,7 @@ Proof.
   intros K H Hx. unfold define_nonlocal in H. cbn [let_define_nonlocal] in H.
   destruct (s_kind s) eqn:E; try destruct K; unfold fn_define_nonlocal in H;
     destruct (find _ _) in H; try discriminate; inversion H; subst;
-    (eexists; split; [reflexivity|]; split; [cbn; rewrite smem_supdate; apply orb_true_iff; right; apply smem_In; exact Hx | reflexivity]).
+    (eexists; split; [reflexivity|]; split; [cbn [s_kind s_defined s_bindings s_nonlocal s_seen with_defined with_bindings with_nonlocal with_seen]; rewrite smem_supdate; apply orb_true_iff; right; apply smem_In; exact Hx | reflexivity]).
 Qed.
 
 (* ---- decl_after_use_is_error: the `seen` scan ---- *)
@@ -110,21 +110,24 @@ Proof.
   destruct Hin as [->|Hin]; [congruence | apply IH; assumption].
 Qed.
 
+Lemma fn_define_nonlocal_seen_error s rest c l root r :
+  In r (s_seen s) -> In (name_of c r) (cell_names c l) ->
+  exists x, In x (cell_names c l) /\ fn_define_nonlocal s rest c l root = inr (ErrDeclAfterUse x root).
+Proof.
+  intros Hr Hn.
+  destruct (find_some_exists (fun r0 => smem (name_of c r0) (cell_names c l)) (s_seen s) r Hr) as [y [Fy My]];
+    [apply smem_In; exact Hn|].
+  exists (name_of c y). split; [apply smem_In; exact My|].
+  unfold fn_define_nonlocal. destruct root; cbn [s_seen with_defined with_nonlocal]; rewrite Fy; reflexivity.
+Qed.
+
 Theorem decl_after_use_is_error s rest c l root r :
   match s_kind s with KFn | KClass | KGen => True | _ => False end ->
   In r (s_seen s) -> In (name_of c r) (cell_names c l) ->
   exists x, In x (cell_names c l) /\ define_nonlocal (s :: rest) c l root = inr (ErrDeclAfterUse x root).
 Proof.
   intros K Hr Hn. unfold define_nonlocal. cbn [let_define_nonlocal].
-  assert (F : forall s1, s_seen s1 = s_seen s ->
-              exists y, find (fun r0 => smem (name_of c r0) (cell_names c l)) (s_seen s1) = Some y
-                        /\ smem (name_of c y) (cell_names c l) = true).
-  { intros s1 ->. apply (find_some_exists _ _ r Hr). apply smem_In. exact Hn. }
-  destruct (s_kind s) eqn:E; try destruct K; unfold fn_define_nonlocal;
-    (destruct root;
-     [destruct (F (with_defined s (supdate (s_defined s) (cell_names c l))) eq_refl) as [y [Fy My]]
-     |destruct (F (with_nonlocal s (supdate (s_nonlocal s) (cell_names c l))) eq_refl) as [y [Fy My]]];
-     rewrite Fy; exists (name_of c y); split; [apply smem_In; exact My | reflexivity]).
+  destruct (s_kind s) eqn:E; try (destruct K; fail); apply (fn_define_nonlocal_seen_error s rest c l root r); assumption.
 Qed.
 
 (* event level: in a function or class body, using x and then declaring it is rejected *)
@@ -154,8 +157,8 @@ Proof.
 Qed.
 
 Example use_then_declare_example :
-  st_err (run (fun l => l) OSorted [EEnter KFn 1 []; EAccess [120]; EDecl RNonlocal [[120]]] init_state)
-  = Some (ErrDeclAfterUse [120] RNonlocal).
+  st_err (run (fun l => l) OSorted [EEnter KFn 1 []; EAccess [120%N]; EDecl RNonlocal [[120%N]]] init_state)
+  = Some (ErrDeclAfterUse [120%N] RNonlocal).
 Proof. vm_compute. reflexivity. Qed.
 
 (* ---- elision of names bound by an outer let of the same Python scope.
@@ -169,8 +172,8 @@ Definition let_elision_full : Prop :=
     In x (cell_names c l) -> lookup x (s_bindings s1) <> None ->
     ~ In x (cell_names c' l).
 
-Definition el_a : name := [97]. Definition el_b : name := [98].
-Definition el_outer := with_bindings (new_scope 2 KLet) [(el_a, [97; 49]); (el_b, [98; 50])].
+Definition el_a : name := [97%N]. Definition el_b : name := [98%N].
+Definition el_outer := with_bindings (new_scope 2 KLet) [(el_a, [97%N; 49%N]); (el_b, [98%N; 50%N])].
 Definition el_inner := new_scope 3 KLet.
 Definition el_fn := new_scope 1 KFn.
 
@@ -194,3 +197,41 @@ Example let_elision_single :
   | inr _ => False
   end.
 Proof. vm_compute. reflexivity. Qed.
+
+(* ---- C13: the machine consults the set-iteration oracle only in ScopeGen.finalize, and through sorted() ---- *)
+Lemma step_perm_independent perm1 perm2 : perm_ok perm1 -> perm_ok perm2 ->
+  forall st e, step perm1 OSorted st e = step perm2 OSorted st e.
+Proof.
+  intros H1 H2 st e. unfold step. destruct (st_err st); [reflexivity|].
+  destruct e; try reflexivity.
+  unfold finalize. destruct (st_stack st) as [|s rest]; [reflexivity|]. destruct (s_kind s); try reflexivity.
+  match goal with |- context [fold_left ?f (s_assignments s) ?a] => destruct (fold_left f (s_assignments s) a) as [[rest' c'] res] end.
+  unfold names_of_set. rewrite (sorted_of_any_two_orders_agree perm1 perm2 H1 H2). reflexivity.
+Qed.
+
+Theorem run_perm_independent perm1 perm2 : perm_ok perm1 -> perm_ok perm2 ->
+  forall evs st, run perm1 OSorted evs st = run perm2 OSorted evs st.
+Proof.
+  intros H1 H2 evs. induction evs as [|e r IH]; intros st; [reflexivity|].
+  cbn [run fold_left]. rewrite (step_perm_independent perm1 perm2 H1 H2). apply IH.
+Qed.
+
+Theorem resolve_perm_independent perm1 perm2 : perm_ok perm1 -> perm_ok perm2 ->
+  forall st, resolve_outervars perm1 OSorted st = resolve_outervars perm2 OSorted st.
+Proof.
+  intros H1 H2 st. unfold resolve_outervars. apply map_ext. intros ov. f_equal.
+  apply visit_outervar_sorted_perm_independent; assumption.
+Qed.
+
+(* everything the scope machinery contributes to the compiled module: final names of all nodes, the
+   finalize results, the error, and the resolved nonlocal/global statements *)
+Definition scope_output (perm : list name -> list name) (ord_fin ord_ov : order_kind) (evs : list event) :=
+  let st := run perm ord_fin evs init_state in
+  (st_cells st, st_fin st, st_err st, resolve_outervars perm ord_ov st).
+
+Theorem scope_output_perm_independent perm1 perm2 : perm_ok perm1 -> perm_ok perm2 ->
+  forall evs, scope_output perm1 OSorted OSorted evs = scope_output perm2 OSorted OSorted evs.
+Proof.
+  intros H1 H2 evs. unfold scope_output. rewrite (run_perm_independent perm1 perm2 H1 H2).
+  rewrite (resolve_perm_independent perm1 perm2 H1 H2). reflexivity.
+Qed.
